@@ -242,4 +242,26 @@ theorem string_variants_roundtrip (k : StrClass) (hk : k ≠ .normalized) (pr : 
 
 example : StrClass.surrounded ≠ .normalized ∧ StrClass.surrounded.setValue "\"".toList = " \" ".toList := by decide
 
+/-! ### names -/
+
+/-- `registry.unescape(registry.escape(n)) == n` for every name component (dots, colons,
+backslashes, non-ASCII, control characters) -/
+theorem name_unescape_escape (n : Str) : unescapeName (escapeName n) = .ok n :=
+  unescapeName_escapeName n
+
+/-- Full statement (false on the pinned tree, see the counter-example): `split (join ns) = ns`.
+Proved part: for every non-empty list of components none of which — except possibly the last —
+ends in a backslash. -/
+theorem name_escape_roundtrip_partial (ns : List Str) (hne : ns ≠ [])
+    (h : ∀ n ∈ ns.dropLast, n.getLast? ≠ some '\\') : splitName (joinName ns) = some ns :=
+  splitName_joinName_aux ns hne h
+
+example : ["supybot".toList, ":net.x".toList, "#chan\\".toList] ≠ [] ∧
+    ∀ n ∈ ["supybot".toList, ":net.x".toList, "#chan\\".toList].dropLast, n.getLast? ≠ some '\\' := by decide
+
+/-- counter-example (known finding C15-name-trailing-backslash): a component ending in a backslash
+swallows the separator -/
+theorem name_escape_counterexample :
+    splitName (joinName ["a\\".toList, "b".toList]) = some ["a\\.b".toList] := by decide
+
 end C15
